@@ -15,6 +15,15 @@ int main(int argc, char **argv) {
   point_t p = { 1, 2 };
   return p.x + INC_VALUE + sizeof(arr) / sizeof(arr[0]);
 }
+#ifdef A /* trailing blank after the comment */ 
+#else /* tab after the comment */	
+#endif /* done */ 
+#define CONTINUED 1 \
+ 
+int after_continued = CONTINUED;
+#if A /* comment */ > 2 /* another */ 	 
+#endif
+#pragma once
 #if __has_include("scan_inc.h")
 #endif
 #ifdef A
